@@ -102,11 +102,13 @@ pub enum Family {
     InputCheck,
     /// copies the interrupt status register (0xF9) and the board status (0xF3) to the outputs in a loop
     StatusMirror,
+    /// 36-46 labels / .EQU constants (the assembler's documented limit is 40 labels)
+    ManyLabels,
 }
 
 /// Generate a program. Returns (source text, family).
 pub fn program(rng: &mut Rng) -> (String, Family) {
-    let fam = *rng.pick(&[Family::Addition, Family::BoardMirror, Family::Counter, Family::Interrupt, Family::ErrorHalt, Family::Random, Family::Random, Family::InputCheck, Family::StatusMirror]);
+    let fam = *rng.pick(&[Family::Addition, Family::BoardMirror, Family::Counter, Family::Interrupt, Family::ErrorHalt, Family::Random, Family::Random, Family::InputCheck, Family::StatusMirror, Family::ManyLabels]);
     let mut s = String::from("#! mrasm");
     if rng.chance(1, 4) {
         s.push_str(" ; header comment");
@@ -258,6 +260,20 @@ pub fn program(rng: &mut Rng) -> (String, Family) {
                 line(rng, &mut s, ".DB 1, 0x02, 0b11");
                 line(rng, &mut s, ".DW 0x1234");
             }
+        }
+        Family::ManyLabels => {
+            let n = 36 + rng.below(11);
+            let equ = rng.bool();
+            for k in 0..n {
+                if equ && k % 2 == 0 {
+                    line(rng, &mut s, &format!(".EQU CONST{} {}", k, k));
+                } else {
+                    s.push_str(&format!("LBL{}:\n", k));
+                    line(rng, &mut s, "INC R0");
+                }
+            }
+            line(rng, &mut s, "ST (0xFF), R0");
+            line(rng, &mut s, "STOP");
         }
         Family::StatusMirror => {
             if rng.bool() {
